@@ -35,6 +35,21 @@ using engine_t = vigna::xoshiro256ss;
 
 extern engine_t engine;
 
+#if defined(VITA_VERIF)
+/// Verification hook (H1): every random draw is reported to an optional sink.
+namespace verif
+{
+using draw_sink_t = void (*)(char, long double, long double, long double);
+inline draw_sink_t draw_sink = nullptr;
+template<class T> inline T log_draw(char k, long double lo, long double hi, T v)
+{
+  if (draw_sink)
+    draw_sink(k, lo, hi, static_cast<long double>(v));
+  return v;
+}
+}  // namespace verif
+#endif
+
 template<class T> [[nodiscard]] T sup(T);
 
 [[nodiscard]] unsigned ring(unsigned, unsigned, unsigned);
@@ -63,6 +78,10 @@ T ephemeral(distribution d, T p1, T p2)
     return between(p1, p2);
 
   case distribution::normal:
+#if defined(VITA_VERIF)
+    return verif::log_draw<T>('n', p1, p2,
+                              std::normal_distribution<T>(p1, p2)(engine));
+#endif
     return std::normal_distribution<T>(p1, p2)(engine);
   }
 }
@@ -87,6 +106,9 @@ between(T min, T sup)
   Expects(min < sup);
 
   std::uniform_real_distribution<T> d(min, sup);
+#if defined(VITA_VERIF)
+  return verif::log_draw<T>('r', min, sup, d(engine));
+#endif
   return d(engine);
 }
 
@@ -110,6 +132,9 @@ between(T min, T sup)
   Expects(min < sup);
 
   std::uniform_int_distribution<T> d(min, sup - 1);
+#if defined(VITA_VERIF)
+  return verif::log_draw<T>('i', min, sup, d(engine));
+#endif
   return d(engine);
 }
 
@@ -186,6 +211,9 @@ inline bool boolean(double p)
   Expects(p <= 1.0);
 
   std::bernoulli_distribution d(p);
+#if defined(VITA_VERIF)
+  return verif::log_draw<bool>('b', 0, p, d(engine));
+#endif
   return d(engine);
 
   //return between<double>(0, 1) < p;
